@@ -254,6 +254,23 @@ class _DeadCodeEliminate:
         self.func = func
         self.def_use = def_use
 
+    def _dead_phis(self) -> set[PhiDef]:
+        """The phi definitions nothing reads: no use of their own, and
+        feeding only phis that are dead themselves (the largest such set,
+        so that the phis of a loop nobody reads are all dead)."""
+        dead = {
+            d for d, uses in self.def_use.uses.items()
+            if isinstance(d, PhiDef) and len(uses) == 0
+        }
+        changed = True
+        while changed:
+            changed = False
+            for phi in list(dead):
+                if any(isinstance(s, PhiDef) and s not in dead for s in self.def_use.successors[phi]):
+                    dead.remove(phi)
+                    changed = True
+        return dead
+
     def apply(self):
         # elimination status
         eliminated_any = False
@@ -261,12 +278,15 @@ class _DeadCodeEliminate:
         # continually eliminate dead code until no more can be eliminated
         while True:
             # process def-use analysis for definitions without uses
-            # specifically interested in assignments, phi variables, and free variables
+            # specifically interested in assignments and free variables;
+            # a definition merged into a phi is read if the phi is
+            dead_phis = self._dead_phis()
             unused_assign: set[Assign] = set()
             unused_fv: set[NamedId] = set()
-            unused_phi: set[PhiDef] = set()
             for d, uses in self.def_use.uses.items():
-                if len(uses) > 0 or any(isinstance(s, PhiDef) for s in self.def_use.successors[d]):
+                if len(uses) > 0:
+                    continue
+                if any(isinstance(s, PhiDef) and s not in dead_phis for s in self.def_use.successors[d]):
                     continue
                 match d:
                     case AssignDef():
@@ -289,19 +309,10 @@ class _DeadCodeEliminate:
                         # name aliasing the same list might still observe
                         # the mutation).  Conservatively leave them in.
                     case PhiDef():
-                        # phi variable with no uses
-                        unused_phi.add(d)
+                        # nothing to remove: its operands are handled above
+                        pass
                     case _:
                         raise RuntimeError(f'unexpected def: {d}')
-
-            # if a phi variable is unused, then its arguments are also unused
-            for phi in unused_phi:
-                lhs = self.def_use.defs[phi.lhs]
-                rhs = self.def_use.defs[phi.rhs]
-                if isinstance(lhs, AssignDef) and isinstance(lhs.site, Assign) and isinstance(lhs.site.target, Id):
-                    unused_assign.add(lhs.site)
-                if isinstance(rhs, AssignDef) and isinstance(rhs.site, Assign) and isinstance(rhs.site.target, Id):
-                    unused_assign.add(rhs.site)
 
             # run code eliminator
             self.func, eliminated = _Eliminator(self.func, self.def_use, unused_assign, unused_fv)._apply()
